@@ -66,6 +66,8 @@ type C16Case struct {
 	RecvErrno int `json:"recv_errno,omitempty"`
 	AckErrno  int `json:"ack_errno,omitempty"`
 	Events    int `json:"events,omitempty"`
+	// kind "setfault": the socket refuses the request itself (either wait mode)
+	SendErrno int `json:"send_errno,omitempty"`
 }
 
 func (c C16Case) Describe() string {
@@ -108,6 +110,10 @@ func genC16(t *rapid.T) C16Case {
 		c.RecvErrno = rapid.SampledFrom([]int{int(syscall.ENOBUFS), 0, int(syscall.EBADF), int(syscall.ENOTCONN), int(syscall.EIO), int(syscall.EINTR), int(syscall.ENOMEM)}).Draw(t, "recverrno")
 		c.AckErrno = rapid.SampledFrom([]int{0, int(syscall.EPERM), int(syscall.EEXIST), int(syscall.EINVAL), int(syscall.ENOBUFS), int(syscall.EAGAIN)}).Draw(t, "ackerrno")
 		c.Events = rapid.SampledFrom([]int{0, 0, 1, 3, 12}).Draw(t, "events")
+		if rapid.IntRange(0, 3).Draw(t, "sendfails") == 0 {
+			c.SendErrno = rapid.SampledFrom([]int{int(syscall.ENOBUFS), int(syscall.EPERM), int(syscall.ECONNREFUSED), int(syscall.EBADF), int(syscall.EMSGSIZE)}).Draw(t, "senderrno")
+			c.NoWait = rapid.Bool().Draw(t, "nowait")
+		}
 	case "set":
 		c.Setter = rapid.SampledFrom(setters).Draw(t, "setter")
 		c.U32 = rapid.OneOf(rapid.Uint32(), rapid.SampledFrom([]uint32{0, 1, 2, 3, 64, 8192, 1<<31 - 1, 1 << 31, 1<<32 - 1, 60000})).Draw(t, "u32")
@@ -241,6 +247,23 @@ func propC16(c C16Case) error {
 			k.Push(simk.Ack(s.Seq, c.AckErrno, s.Type))
 		}
 		cl := &libaudit.AuditClient{Netlink: k}
+		if c.SendErrno != 0 {
+			// nothing goes out: the command says so, in either mode, and does not wait for an answer to nothing
+			k.SendErr = syscall.Errno(c.SendErrno)
+			wm := libaudit.WaitForReply
+			if c.NoWait {
+				wm = libaudit.NoWait
+			}
+			err := callSetter(cl, c.Setter, c.U32, c.Bool, wm)
+			if err == nil {
+				return fmt.Errorf("%s (nowait=%v): the socket refused the request with errno %d and the command returned nil", c.Setter, c.NoWait, c.SendErrno)
+			}
+			if k.Recvs != 0 {
+				return fmt.Errorf("%s (nowait=%v): the socket refused the request with errno %d; the command then read from the socket %d times (result %v)", c.Setter, c.NoWait, c.SendErrno, k.Recvs, err)
+			}
+			hC16.Class("set-refused-by-the-socket")
+			return nil
+		}
 		err := callSetter(cl, c.Setter, c.U32, c.Bool, libaudit.WaitForReply)
 		what := fmt.Sprintf("%s in WaitForReply mode (first receive fails with errno %d, %d records before the acknowledgement, which carries errno %d; result %v)", c.Setter, c.RecvErrno, c.Events, c.AckErrno, err)
 		if len(k.Sent) != 1 {
